@@ -49,7 +49,7 @@ structure Ctl where
   parkedQ : List Nat := []
   holder : Option Pid := none
   waiter : Option Pid := none
-  failOpen : Nat := 0
+  openScript : List Bool := []   -- next underlying Opens: false = refused, true = accepted and the connection dies at once
   monSt : MonSt := .none
   buffered : Bool := false
   monLog : List String := []
@@ -94,6 +94,16 @@ def Ctl.opened (c : Ctl) : Ctl :=
   let k := c.s.incs.length - 1
   { c with ents := c.ents ++ [{ pid := .loop k, idx := k + 1, st := .rd }] }
 
+/-- the connection just opened dies at once: the new loop's first read fails -/
+def Ctl.flapNewLoop (c : Ctl) : Ctl :=
+  let k := c.s.incs.length - 1
+  match step c.s (.read k .err) with
+  | none => c
+  | some s' =>
+    let c := { c with s := s' }
+    if c.armErr then { (c.setSt (.loop k) .herr) with armErr := false, parkedQ := c.parkedQ ++ [k] }
+    else c.setSt (.loop k) .run
+
 def Ctl.stuck (c : Ctl) (p : Pid) : Ctl :=
   c.setSt p (if c.holder.isSome then .wait else .blocked)
 
@@ -122,18 +132,20 @@ def runPid (c : Ctl) (p : Pid) : Nat → Ctl
     | .call i =>
       match c.s.calls[i]? with
       | some ⟨kind, .start⟩ =>
-        let openOk := c.failOpen == 0
+        let consumes := kind = .open && !c.s.isOpen
+        let openOk := !(consumes && c.openScript.head? == some false)
+        let flap := consumes && c.openScript.head? == some true
         match step c.s (.callStep i openOk) with
         | none => c.stuck p
         | some s' =>
-          let c := if kind = .open && !c.s.isOpen && !openOk then { c with failOpen := c.failOpen - 1 } else c
+          let c := if consumes then { c with openScript := c.openScript.drop 1 } else c
           let c := { c with s := s' }
           match s'.calls[i]? with
           | some ⟨_, .atSignal⟩ =>
             if c.armPre then { (c.setSt p .hpre) with armPre := false, holder := some p } else runPid c p fuel
           | some ⟨_, .done r⟩ =>
             let c := c.setSt p (.done (retName r))
-            if kind = .open && r = .ok then c.opened else c
+            if kind = .open && r = .ok then (if flap then c.opened.flapNewLoop else c.opened) else c
           | _ => c
       | some ⟨_, .atSignal⟩ =>
         match step c.s (.callStep i true) with
@@ -182,7 +194,8 @@ def monRun (c : Ctl) (cause : Cause) : Ctl × List String :=
   match cause with
   | .clean => ({ c with monSt := .term, monLog := c.monLog ++ ["C"] }, ["C"])
   | .dirty =>
-    let outs := if c.s.isOpen then List.replicate 64 false else List.replicate c.failOpen false ++ [true]
+    let nf := (c.openScript.takeWhile (· == false)).length
+    let outs := if c.s.isOpen then List.replicate 64 false else List.replicate nf false ++ [true]
     let tr := Monitor.handleClose c.pol false outs
     let toks := tr.filterMap fun e => match e with
       | .closedUncleanly r w => some ("U>" ++ b2s r ++ ":" ++ msOf w)
@@ -190,7 +203,7 @@ def monRun (c : Ctl) (cause : Cause) : Ctl × List String :=
       | .reopenSucceeded => some "S"
       | _ => none
     let fails := (tr.filter fun e => e == .attempt false).length
-    let c := if c.s.isOpen then c else { c with failOpen := c.failOpen - fails }
+    let c := if c.s.isOpen then c else { c with openScript := c.openScript.drop fails }
     let c := { c with monLog := c.monLog ++ toks }
     if tr.contains .reopenSucceeded then
       -- the runner's Open: an Open call like any other
@@ -198,7 +211,15 @@ def monRun (c : Ctl) (cause : Cause) : Ctl × List String :=
       match (step c.s (.invoke .open)).bind fun s => step s (.callStep i true) with
       | none => ({ c with monSt := .term }, toks ++ ["blocked"])
       | some s' =>
-        let c := { c with s := s' }.opened
+        let flap : Bool := c.openScript.head? == some true
+        let c := { c with s := s', openScript := c.openScript.drop 1 }.opened
+        -- a connection that dies at once: its loop closes the transport before the runner's sanity
+        -- check (which only logs); the close's cause waits in the monitor channel
+        let c := if flap then
+            -- (nobody is held before the closeSignal send while the monitor runs)
+            let pre := c.armPre
+            { (settle { c with armPre := false }.flapNewLoop 16) with armPre := pre }
+          else c
         if c.buffered then (({ c with buffered := false, monSt := .idle }).monTake, toks)
         else ({ c with monSt := .idle }, toks)
     else ({ c with monSt := .term }, toks)
@@ -273,7 +294,7 @@ def doStep (c : Ctl) (i : Nat) (b : UInt8) : Ctl × String :=
       let c := runPid (c.setSt p .run) p 8
       let c := settle c 16
       report c (some p) ""
-  else if a = 14 then ({ c with failOpen := c.failOpen + 1 }, "a")
+  else if a = 14 then ({ c with openScript := c.openScript ++ [decide (b.toNat / 16 ≥ 8)] }, "a")
   else
     match c.monSt, held with
     | .parked cause, false =>
